@@ -170,11 +170,40 @@ def self_attr(name: str) -> Term:
     return ("attr", SELF, name)
 
 
+def _list_contribs(t):
+    """contributions of a freshly built list term, in order (None if t is not one)"""
+    if t[:1] == ("list",):
+        return tuple(("one", (), x) for x in t[1])
+    if t[:1] == ("acc",) and t[1] == "list":
+        return tuple(t[2])
+    return None
+
+
 def mk_elem(it) -> Term:
     """an element of iterable `it`; list(X) / tuple(X) / iter(X) range over the same elements as X"""
     while is_call_of(it) and it[1] in (("glob", "list"), ("glob", "tuple"), ("glob", "iter")) and len(it[2]) == 1 and not it[3]:
         it = it[2][0]
+    # an element of a list/set built by one comprehension (or one guarded append) is the contributed term itself;
+    # the filter conditions are reported by Sym.guards for the body of a loop over it
+    # for i in range(len(X)) ranges over the positions of X, as `i` of `for i, x in enumerate(X)` does
+    if is_call_of(it, ("glob", "range")) and len(it[2]) == 1 and not it[3] and is_call_of(it[2][0], ("glob", "len")) \
+            and len(it[2][0][2]) == 1:
+        return ("index", it[2][0][2][0])
+    if it[:1] in (("tuple",), ("list",)) and it[1] and len(it[1]) <= 8 and all(x[:1] == ("const",) for x in it[1]):
+        # a loop over a literal tuple of constants runs its body once for each of them
+        return mk_alt(list(it[1]), 8, "elem")
+    if it[:1] == ("acc",) and it[1] in ("list", "set", "gen", "deque") and it[2] and all(c[0] in ("one", "many") for c in it[2]):
+        return mk_alt([c[2] if c[0] == "one" else mk_elem(c[2]) for c in it[2]], 8, "elem")
     return ("elem", it)
+
+
+def coord(t):
+    """(array, position) of an element access: X[i] -> (X, i); the element of X in a loop over X's positions -> (X, index X)"""
+    if t[:1] == ("sub",):
+        return t[1], t[2]
+    if t[:1] == ("elem",):
+        return t[1], ("index", t[1])
+    return None
 
 
 def mk_alt(alts: Sequence[Term], max_alts: int = 8, what: str = "?") -> Term:
@@ -287,6 +316,15 @@ class Sym:
             if g.id in outer or isinstance(g.ast, (ast.For, ast.AsyncFor)) or g.from_assert:
                 continue
             out.append((g.kind == "T", self.of(g.ast, g.of)))
+        # a loop over a filtered comprehension: its filter holds for every element the body sees
+        for g in self.cfg.guards(nid):
+            if g.id in outer or not (g.kind == "T" and isinstance(g.ast, (ast.For, ast.AsyncFor))):
+                continue
+            it = self.of(g.ast.iter, g.of)
+            while is_call_of(it) and it[1] in (("glob", "list"), ("glob", "tuple"), ("glob", "iter")) and len(it[2]) == 1 and not it[3]:
+                it = it[2][0]
+            if it[:1] == ("acc",) and len(it[2]) == 1 and it[2][0][0] == "one":
+                out.extend(it[2][0][1])
         return tuple(out)
 
     def loops(self, nid: int) -> Tuple[Term, ...]:
@@ -314,15 +352,36 @@ class Sym:
         if isinstance(e, ast.Attribute):
             return ("attr", rec(e.value), e.attr)
         if isinstance(e, ast.Subscript):
-            return ("sub", rec(e.value), rec(e.slice))
+            v, i = rec(e.value), rec(e.slice)
+            if i[:1] == ("index",) and i[1] == v and isinstance(getattr(e, "ctx", None), ast.Load):
+                return ("elem", v)      # X[i] with i a position of X (same iteration): the element
+            return ("sub", v, i)
         if isinstance(e, ast.Slice):
             return ("slice",) + tuple(rec(x) if x is not None else None for x in (e.lower, e.upper, e.step))
         if isinstance(e, ast.Call):
+            # any(P(x) for x in (a, b, c)) is P(a) or P(b) or P(c); all(...) likewise with `and`
+            if isinstance(e.func, ast.Name) and e.func.id in ("any", "all") and len(e.args) == 1 and not e.keywords \
+                    and isinstance(e.args[0], (ast.GeneratorExp, ast.ListComp)) and len(e.args[0].generators) == 1:
+                g = e.args[0].generators[0]
+                if isinstance(g.iter, (ast.Tuple, ast.List)) and not g.ifs and not any(isinstance(x, ast.Starred) for x in g.iter.elts) \
+                        and 0 < len(g.iter.elts) <= 8 and e.func.id not in self.locals:
+                    parts = []
+                    for el in g.iter.elts:
+                        env = dict(cenv)
+                        self._bind_target(g.target, self._of(el, at, d, cenv), env)
+                        parts.append(self._of(e.args[0].elt, at, d, env))
+                    return ("bool", "or" if e.func.id == "any" else "and", tuple(parts))
             pos = tuple(("uop", "*", rec(a.value)) if isinstance(a, ast.Starred) else rec(a) for a in e.args)
             kws = tuple((kw.arg or "**", rec(kw.value)) for kw in e.keywords)
             return ("call", rec(e.func), pos, kws)
         if isinstance(e, ast.BinOp):
-            return ("op", A.BINOP_TOKEN.get(type(e.op), "?"), rec(e.left), rec(e.right))
+            l, r = rec(e.left), rec(e.right)
+            if isinstance(e.op, ast.Add):
+                # list concatenation of freshly built lists = one list built in that order
+                cl, cr = _list_contribs(l), _list_contribs(r)
+                if cl is not None and cr is not None:
+                    return ("acc", "list", cl + cr)
+            return ("op", A.BINOP_TOKEN.get(type(e.op), "?"), l, r)
         if isinstance(e, ast.UnaryOp):
             if isinstance(e.op, ast.USub) and isinstance(e.operand, ast.Constant) and isinstance(e.operand.value, (int, float)) \
                     and not isinstance(e.operand.value, bool):
@@ -345,7 +404,22 @@ class Sym:
             kind = {ast.Tuple: "tuple", ast.List: "list", ast.Set: "set"}[type(e)]
             return (kind, tuple(rec(x) for x in e.elts))
         if isinstance(e, ast.Dict):
-            return ("dict", tuple((rec(k) if k is not None else ("opaque", "**"), rec(v)) for k, v in zip(e.keys, e.values)))
+            if any(k is None for k in e.keys):
+                # {**a, k: v, **b}: a mapping accumulated in that order
+                cs = []
+                for k, v in zip(e.keys, e.values):
+                    if k is not None:
+                        cs.append(("kv", (), rec(k), rec(v)))
+                        continue
+                    tv = rec(v)
+                    if tv[:1] == ("acc",) and tv[1] == "dict":
+                        cs.extend(tv[2])      # **{comprehension}: its entries, spliced in place
+                    elif tv[:1] == ("dict",):
+                        cs.extend(("kv", (), a, b) for a, b in tv[1])
+                    else:
+                        cs.append(("many", (), tv))
+                return ("acc", "dict", tuple(cs))
+            return ("dict", tuple((rec(k), rec(v)) for k, v in zip(e.keys, e.values)))
         if isinstance(e, (ast.ListComp, ast.SetComp, ast.GeneratorExp, ast.DictComp)):
             return self._comp(e, at, d, cenv)
         if isinstance(e, ast.Starred):
@@ -374,6 +448,10 @@ class Sym:
             for c in g.ifs:
                 guards.append((True, self._of(c, at, depth, env)))
         kind = {ast.ListComp: "list", ast.SetComp: "set", ast.GeneratorExp: "gen", ast.DictComp: "dict"}[type(e)]
+        if isinstance(e, (ast.ListComp, ast.SetComp)) and len(e.generators) == 1 and not guards and isinstance(e.elt, ast.Name) \
+                and isinstance(e.generators[0].target, ast.Name) and e.elt.id == e.generators[0].target.id:
+            # [x for x in it] is list(it)
+            return ("call", ("glob", kind), (self._of(e.generators[0].iter, at, depth, cenv),), ())
         if isinstance(e, ast.DictComp):
             return ("acc", kind, (("kv", tuple(guards), self._of(e.key, at, depth, env), self._of(e.value, at, depth, env)),))
         return ("acc", kind, (("one", tuple(guards), self._of(e.elt, at, depth, env)),))
@@ -766,6 +844,12 @@ def match_some(t, pat) -> Optional[dict]:
         m = match(a, pat)
         if m is not None:
             return m
+    # alternatives nested inside the term (an argument that is one of several constants, ...)
+    if contains(t, lambda x: x[:1] == ("alt",)):
+        for a in instances(t, 16):
+            m = match(a, pat)
+            if m is not None:
+                return m
     return None
 
 
